@@ -57,6 +57,13 @@ def touches(ev):
     return []
 
 
+def short_entry(name):
+    n = name.replace("cactusref::", "")
+    if "::<T>::" in n:
+        n = n.replace("rc::Rc::<T>::", "Rc::").replace("rc::Weak::<T>::", "Weak::")
+    return n.rsplit("::", 2)[-2].split("<")[0] + "::" + n.rsplit("::", 1)[-1] if "::" in n else n
+
+
 class Teardown:
     """TS-1..TS-5, UNW-1: contents are moved out only of dead boxes, at most once,
     destroyed before the implicit weak is released, released once, freed only at
@@ -159,7 +166,20 @@ class Teardown:
                 st = add(st, *[("xfer", fl[1], fl[2], ev.box) for fl in hit])
         return st
 
+    def _given_up(self, eng, ev, st, b):
+        """A handle-consuming API took the last strong reference of `b` and now releases its implicit weak: the
+        allocation may be freed here, so the value must have been handed on / destroyed and the link table dropped."""
+        if self.entry_kind in ("rc_drop", "weak_drop") or is_elem_box(b) or not (st.strong(b) <= DEAD) or ("killed", b) not in st.flags:
+            return
+        eng.obl("GIVE-1", "given-up", ev.b)
+        for f in ("value", "links"):
+            if not any(fl[0] in ("dropped", "xfer") and fl[1] == b and fl[2] == f for fl in st.flags) and not any(fl[0] in ("mv", "held") and b in fl and f in fl for fl in st.flags):
+                eng.violate("GIVE-1", "given-up-without-destroy:%s:%s" % (f, short_entry(eng.name)), "%s takes the last strong reference of %s and releases its implicit weak, but the object's `%s` is never dropped: %s" % (
+                    short_entry(eng.name), show(b), f, "the table's storage is lost even when every adoption was undone before the call" if f == "links" else "the value leaks"), ev.b, st)
+
     def on_handle_drop(self, eng, ev, st):
+        if ev.handle == "Weak" and ev.box is not None:
+            self._given_up(eng, ev, st, ev.box)
         # TS-6: a strong handle whose drop would destroy the value may only exist (be dropped) for a box
         # whose value has been initialised; while a fresh allocation is being filled it must be held
         # as Rc<MaybeUninit<T>> (whose drop does not touch the value)
@@ -211,6 +231,7 @@ class Teardown:
                 eng.violate("TS-3", "double-release", "the weak count of %s is lowered twice on one path%s" % (show(b), " (unwinding)" if unwinding else ""), ev.b, st)
             dead = st.strong(b) <= DEAD
             if dead:
+                self._given_up(eng, ev, st, b)
                 for fl in st.flags:
                     if (fl[0] == "mv" and fl[1] == b) or (fl[0] == "held" and fl[2] == b):
                         f = fl[2] if fl[0] == "mv" else fl[3]
